@@ -166,9 +166,17 @@ meta("C18", explanation="push/pop, restoration on both exits, protected names, f
      assumptions=["the header stack is the same at resumption as at suspension (nested blocks restore it)"],
      not_decided=["recency clause: bounded stand-in, not proved"])
 meta("C19", explanation="single_request postconditions over the assumed connection protocol; _run_request/_request error paths.",
+     # 'the parse of its own response' rests on the parser pair being made afresh for every response and keeping nothing:
+     # the trusted parse_response model relies on the whole contracts of these functions
+     include=["jsonrpclib.jsonrpc.TransportMixIn.getparser", "jsonrpclib.jsonrpc.JSONParser.__init__",
+              "jsonrpclib.jsonrpc.JSONParser.feed", "jsonrpclib.jsonrpc.JSONParser.close", "jsonrpclib.jsonrpc.JSONTarget.__init__",
+              "jsonrpclib.jsonrpc.JSONTarget.feed", "jsonrpclib.jsonrpc.JSONTarget.close"],
      trusted_base=["http.client.HTTPConnection/HTTPResponse assumed protocol", "xmlrpc.client.Transport.close/make_connection/parse_response"],
      assumptions=["the recovery bound is a fact about http.client and the OS: assumed, not proved"],
      not_decided=["'at most one further call fails' (sequence lemma over the assumed protocol)"])
 meta("C20", explanation="handler precedence, verbatim result, configuration forwarded at every depth, configured names.",
+     # the configured names and the handler table must survive Config.copy(): the dispatcher dumps results with a copy
+     # whenever it adapts its version to a 1.0 request
+     include=["jsonrpclib.config.Config.copy", "jsonrpclib.config.Config.__init__"],
      trusted_base=["translator callables are opaque", "exact-type lookup models isinstance against handler types"],
      assumptions=["ignore is None or a list"], not_decided=["ignored names absent from a bean's dump: bounded stand-in on generated shapes"])
